@@ -284,6 +284,12 @@ Export == (AtTop /\ budget = 0) =>
                                     logs |-> [o \in Ids |-> Proj(log[o])],
                                     at |-> [i \in 1..Len(res) |-> <<res[i].s, IF res[i].n THEN 1 ELSE 0, IF res[i].e THEN 1 ELSE 0>>],
                                     cs |-> [i \in 1..Len(res) |-> res[i].c],
+                                    \* reachability witnesses (the runner requires each of them somewhere in the
+                                    \* exhaustive part): a member of a snapshot skipped because it was unsubscribed
+                                    \* before its turn; a late subscriber
+                                    skips |-> Cardinality({co \in (1..Len(calls)) \X Ids :
+                                                 co[2] \in calls[co[1]].rc /\ ~\E i \in 1..Len(log[co[2]]) : log[co[2]][i][3] = co[1]}),
+                                    late |-> Cardinality({o \in Ids : subMode[o] = "late"}),
                                     \* a subscribe on the disposed subject has two accepted outcomes: a single
                                     \* simulated behaviour shows only one of them
                                     amb |-> (\E i \in 1..Len(res) : res[i].c = "sub" /\ res[i].d)]]))
